@@ -98,6 +98,19 @@ pub(super) fn escape_misused_repetition_quantifier(expression: &str) -> String {
                 expression_escaped.push(ch);
                 if let Some((_, ch2)) = chars.next_if(|(next, _)| quantifier_at(*next).is_none()) {
                     expression_escaped.push(ch2);
+                    // an escape that takes its argument in curly brackets -- a
+                    // Unicode class `\p{..}`, a code point `\x{..}` -- keeps them
+                    if matches!(ch2, 'p' | 'P' | 'x' | 'u' | 'U')
+                        && chars.peek().is_some_and(|(_, next)| *next == '{')
+                    {
+                        if let Some(close) = expression[index..].find('}') {
+                            while let Some((_, ch3)) =
+                                chars.next_if(|(next, _)| *next <= index + close)
+                            {
+                                expression_escaped.push(ch3);
+                            }
+                        }
+                    }
                 }
             }
             '{' | '}' => {
